@@ -142,4 +142,6 @@ def draw_azimuths(rng, n_az):
     if rng.random() < 0.5:
         return [round(i * step, 3) for i in range(n_az)]
     vals = sorted(rng.sample([x * 0.5 for x in range(0, 360)], n_az))
+    if rng.random() < 0.4:
+        rng.shuffle(vals)                          # azimuths need not be ascending
     return [float(v) for v in vals]
